@@ -359,8 +359,8 @@ func genC10(g *Gen, tier string, emit func(op string, args ...string)) {
 	for i := 0; i < n; i++ {
 		emit("integer", strconv.FormatUint(g.boundaryU(32), 10))
 		emit("integer64", strconv.FormatUint(g.boundaryU(64), 10))
-		emit("string", hx(g.Bytes(g.Pick(0, 1, 10, 252, 253, 254, 300))))
-		emit("bytes", hx(g.Bytes(g.Pick(0, 1, 10, 252, 253, 254, 300))))
+		emit("string", hxIn(g.Bytes(g.Pick(0, 1, 10, 252, 253, 254, 300))))
+		emit("bytes", hxIn(g.Bytes(g.Pick(0, 1, 10, 252, 253, 254, 300))))
 		// IPs of length 0..20 incl. v4-mapped
 		ip := g.Bytes(g.Pick(0, 3, 4, 4, 5, 15, 16, 16, 17, 20, g.Intn(24)))
 		if len(ip) == 16 && g.Chance(1, 2) {
@@ -369,9 +369,9 @@ func genC10(g *Gen, tier string, emit func(op string, args ...string)) {
 				ip[g.Intn(12)] ^= 1
 			}
 		}
-		emit("ipaddr", hx(ip))
-		emit("ipv6addr", hx(ip))
-		emit("ifid", hx(g.Bytes(g.Pick(0, 6, 7, 8, 8, 8, 9, 16, g.Intn(20)))))
+		emit("ipaddr", hxIn(ip))
+		emit("ipv6addr", hxIn(ip))
+		emit("ifid", hxIn(g.Bytes(g.Pick(0, 6, 7, 8, 8, 8, 9, 16, g.Intn(20)))))
 		var sec int64
 		switch g.Intn(5) {
 		case 0:
@@ -382,8 +382,8 @@ func genC10(g *Gen, tier string, emit func(op string, args ...string)) {
 			sec = int64(g.U64() % 5000000000)
 		}
 		emit("date", strconv.FormatInt(sec, 10), itoa(g.Pick(0, 1, 500000000, 999999999)))
-		emit("vsa", strconv.FormatUint(g.boundaryU(32), 10), hx(g.Bytes(g.Pick(0, 0, 1, 2, 100, 248, 249, 250, 260))))
-		emit("tlv", itoa(g.Intn(256)), hx(g.Bytes(g.Pick(0, 0, 1, 2, 100, 252, 253, 254, 260))))
+		emit("vsa", strconv.FormatUint(g.boundaryU(32), 10), hxIn(g.Bytes(g.Pick(0, 0, 1, 2, 100, 248, 249, 250, 260))))
+		emit("tlv", itoa(g.Intn(256)), hxIn(g.Bytes(g.Pick(0, 0, 1, 2, 100, 252, 253, 254, 260))))
 		// prefixes: every prefix length x addresses x contiguous and non-contiguous masks
 		pip := g.RandBytes(g.Pick(4, 15, 16, 16, 16, 16, 16, 17))
 		if g.Chance(1, 3) {
@@ -391,7 +391,7 @@ func genC10(g *Gen, tier string, emit func(op string, args ...string)) {
 				pip[k] = 0xff
 			}
 		}
-		emit("ipv6prefix", hx(pip), hx(g.mask(g.Pick(4, 16, 16, 16, 16, 16, 15, 17, 0))))
+		emit("ipv6prefix", hxIn(pip), hxIn(g.mask(g.Pick(4, 16, 16, 16, 16, 16, 15, 17, 0))))
 		// decoders on arbitrary bytes
 		codec := decoders[g.Intn(len(decoders))]
 		a := g.Bytes(g.Pick(0, 1, 2, 3, 4, 5, 7, 8, 9, 15, 16, 17, 18, 19, 20, 100, 253, 254, 255, 256, 300))
@@ -408,16 +408,16 @@ func genC10(g *Gen, tier string, emit func(op string, args ...string)) {
 				}
 			}
 		}
-		emit("dec", codec, hx(a))
+		emit("dec", codec, hxIn(a))
 	}
 	emit("ipv6prefix", "nil", "-")
 	for pl := 0; pl <= 128; pl++ {
 		ip := g.RandBytes(16)
-		emit("ipv6prefix", hx(ip), hx(net.CIDRMask(pl, 128)))
+		emit("ipv6prefix", hxIn(ip), hxIn(net.CIDRMask(pl, 128)))
 		for k := range ip {
 			ip[k] = 0xff
 		}
-		emit("ipv6prefix", hx(ip), hx(net.CIDRMask(pl, 128)))
+		emit("ipv6prefix", hxIn(ip), hxIn(net.CIDRMask(pl, 128)))
 	}
 	// small integers repeatedly (an encoder that caches must still hand out fresh, correct slices)
 	for v := 0; v < 70; v++ {
@@ -452,21 +452,21 @@ func genC10(g *Gen, tier string, emit func(op string, args ...string)) {
 		}
 		for _, o := range outs {
 			for _, codec := range decoders {
-				emit("dec", codec, hx(o))
+				emit("dec", codec, hxIn(o))
 			}
 		}
 	}
 	// every decoder on every length 0..300 and every byte string of <= 2 bytes
 	for _, codec := range decoders {
 		for l := 0; l <= 300; l++ {
-			emit("dec", codec, hx(g.Bytes(l)))
+			emit("dec", codec, hxIn(g.Bytes(l)))
 		}
 		if tier == "thorough" {
 			for x := 0; x < 256; x++ {
-				emit("dec", codec, hx([]byte{byte(x)}))
+				emit("dec", codec, hxIn([]byte{byte(x)}))
 				for y := 0; y < 256; y += 5 {
-					emit("dec", codec, hx([]byte{byte(x), byte(y)}))
-					emit("dec", codec, hx([]byte{byte(x), byte(y), 0}))
+					emit("dec", codec, hxIn([]byte{byte(x), byte(y)}))
+					emit("dec", codec, hxIn([]byte{byte(x), byte(y), 0}))
 				}
 			}
 		}
